@@ -181,13 +181,26 @@ def run(ctx):
         good = False
         if lt:
             v = lt[0]  # outermost (last applied)
-            for sub in subterms(v):
-                if sub[0] == "field" and sub[2] == "expire":
-                    src = norm(sub[1])
-                    if src[0] == "payload" and src[2][0] == "call" and src[2][1] == wbody.id:
+            # the value *is* lease.expire.as_secs() (narrowed) of the lease the pool returned: not one of several alternatives, not
+            # something computed from it and from what the client suggested
+            x = v
+            for _ in range(6):
+                if x[0] in ("ref", "deref"):
+                    x = norm(x[1])
+                elif x[0] == "cast":
+                    x = norm(x[3])
+                else:
+                    break
+            if x[0] == "call" and str(x[1]).endswith("Duration::as_secs") and len(x[2]) == 1:
+                src = norm(x[2][0])
+                while src[0] in ("ref", "deref"):
+                    src = norm(src[1])
+                if src[0] == "field" and src[2] == "expire":
+                    src = norm(src[1])
+                    while src[0] in ("ref", "deref"):
+                        src = norm(src[1])
+                    if src[0] == "payload" and norm(src[2])[0] == "call" and norm(src[2])[1] == wbody.id:
                         good = True
-            bad_arith = any(sub[0] == "bin" for sub in subterms(v))
-            good = good and not bad_arith
         ctx.check(good, "R2", "reply-carries-option51-from-lease:%s" % tag, where,
                   "the reply's options must end with set_option(51, lease.expire.as_secs()) of the lease returned by the pool; "
                   "options set after policy application: %s" % [k for k, _ in sets])
